@@ -167,6 +167,10 @@ func c01Oracle(cr *caseRun) [][2]string {
 	}
 	if ok, out := goBuild(cr.Dir, "pk"); !ok {
 		class, first := compileErrorClass(out)
+		if class == "unexported-member-referenced" && regexp.MustCompile(`\.Pos\.y\b`).MatchString(first) {
+			// the recorded finding: the unexported member y of the anonymous struct Pos inside ext.WithAnon
+			class = "unexported-member-referenced:member-of-an-anonymous-struct-type"
+		}
 		if class == "undefined-identifier" && strings.HasSuffix(strings.TrimSpace(first), "undefined: Item") {
 			// deep.Item: a type of a package the setup file does not import itself, spelled without qualifier
 			class = "undefined-identifier:type-of-a-package-the-setup-file-does-not-import"
